@@ -79,6 +79,106 @@ def start(sim, t):
                 (t.typ, t.tok.hex(), ("d%s" % t.tok.hex()).encode().hex()))
 
 
+def rawput_case(exe, it, run, stats):
+    """a sender that is not libcoap uploads a body with Block1 to a libcoap server, loss-free
+    and in order: Size1 on the first block, on every block, or (it is optional: RFC 7959 4)
+    never; the receiving application gets the exact body once (single-body mode) or blocks
+    that tile it (per-block mode)"""
+    r = common.rng("c09-rawput-%d" % it)
+    szx = r.choice([0, 0, 1, 2, 4, 6])
+    bs = 16 << szx
+    nblk = r.choice([1, 2, 2, 3, 3, 5, 9])
+    blen = (nblk - 1) * bs + r.choice([1, bs // 2, bs - 1, bs]) if nblk > 1 else \
+        r.choice([1, bs // 2, bs])
+    size1 = r.choice(["never", "never", "first", "all"])
+    single = r.random() < 0.7
+    typ = r.choice([0, 0, 1])
+    method = r.choice([2, 3])
+    body = gen_body(r.randint(1, 10 ** 6), blen)
+    tok = bytes([0xFC, r.getrandbits(8)])
+    peer = "10.0.7.%d:40000" % (1 + it % 200)
+    w = world.World(exe, seed=r.getrandbits(30))
+    sim = world.Sim(w, latency=2)
+    witness = {"kind": "rawput", "item": it, "szx": szx, "body_len": blen, "size1": size1,
+               "single_body": single, "type": typ, "script": w.script}
+    try:
+        sim.cmd("fullpayload 1")
+        sim.add_node(1, block_mode=3 if single else 1)
+        sim.cmd("ep 1 udp %s" % SERVER)
+        sim.cmd("res 1 %s store=1" % b"rp".hex())
+        state = {"i": 0, "replies": []}
+        nb = (blen + bs - 1) // bs
+
+        def send_block(sm, i):
+            more = 1 if i < nb - 1 else 0
+            v = (i << 4) | (more << 3) | szx
+            opts = [(11, b"rp"), (27, v.to_bytes((v.bit_length() + 7) // 8, "big") if v else b"")]
+            if size1 == "all" or (size1 == "first" and i == 0):
+                opts.append((60, blen.to_bytes((blen.bit_length() + 7) // 8, "big")))
+            m = cw.msg(method, type=typ, mid=0x5100 + i, token=tok, options=opts,
+                       payload=body[i * bs:(i + 1) * bs])
+            sm.inject(peer, SERVER, cw.encode(m, "udp"))
+
+        def on_reply(sm, frm, to, data):
+            try:
+                m = cw.decode(data, "udp")
+            except Exception:
+                return
+            state["replies"].append(m)
+            if m["code"] == 0x5F and state["i"] < nb - 1:
+                state["i"] += 1
+                send_block(sm, state["i"])
+        sim.peers[peer] = on_reply
+        send_block(sim, 0)
+        sim.run(horizon=60000)
+        reqs = [e for e in sim.log if e["e"] == "req" and e.get("n") == 1 and e["res"] == "rp"]
+        stats["raw_uploads"] = stats.get("raw_uploads", 0) + 1
+        loc = "rawput/%s/size1-%s" % ("single-body" if single else "per-block", size1)
+        if single:
+            good = [e for e in reqs if e.get("plen", -1) == blen and e.get("poff", 0) == 0 and
+                    bytes.fromhex(e.get("phex", "")) == body]
+            bad = [e for e in reqs if e not in good]
+            if bad:
+                run.violation("delivered-bytes-differ-from-body/%s" % loc, witness,
+                              "the application was handed %r (length, offset, total) for a "
+                              "%d-byte body sent in %d blocks of %d" %
+                              ([(e.get("plen"), e.get("poff"), e.get("ptot")) for e in bad],
+                               blen, nb, bs))
+            if len(good) != 1:
+                run.violation("lossless-transfer-incomplete/%s" % loc, witness,
+                              "complete body delivered %d times; replies %r" %
+                              (len(good), [hex(m["code"]) for m in state["replies"]]))
+        else:
+            cover = bytearray(blen)
+            okb = True
+            for e in reqs:
+                off, ln = e.get("poff", 0), max(e.get("plen", 0), 0)
+                if bytes.fromhex(e.get("phex", "")) != body[off:off + ln]:
+                    okb = False
+                for k in range(off, min(off + ln, blen)):
+                    cover[k] += 1
+            if not okb or any(c != 1 for c in cover):
+                run.violation("blocks-do-not-tile-body/%s" % loc, witness,
+                              "handler calls (length, offset): %r for a %d-byte body" %
+                              ([(e.get("plen"), e.get("poff")) for e in reqs], blen))
+        final = [m for m in state["replies"] if m["code"] != 0x5F and m["code"] != 0]
+        if len(final) != 1 or (final[0]["code"] >> 5) != 2:
+            run.violation("lossless-transfer-incomplete/%s/final-response" % loc, witness,
+                          "replies: %r" % [hex(m["code"]) for m in state["replies"]])
+        else:
+            stats["complete"] = stats.get("complete", 0) + 1
+        evs, rc, err = w.close()
+        if rc not in (0, None):
+            sg = common.sanitizer_signature(err) or "exit-rc%s" % rc
+            run.violation("teardown/rawput/%s" % sg, dict(witness, stderr=err[-3000:]), err[-1500:])
+        return ("rawput", szx, nb, size1, single, typ)
+    except world.WorldCrash as e:
+        world.crash_violation(run, "C09/rawput", e, witness)
+    finally:
+        if not w.closed:
+            w.close(kill=True)
+
+
 def payload_ok(ev, body):
     """does the handler's view (offset, length, fnv) equal body[off:off+len]?"""
     ln, off = ev.get("plen", -1), ev.get("poff", 0)
@@ -454,8 +554,8 @@ def work(job):
     for it in items:
         w = None
         witness = {"kind": kind, "item": repr(it)[:200], "seed": common.seed()}
-        if kind == "both":
-            sg = both_case(exe, it, run, stats)
+        if kind in ("both", "rawput"):
+            sg = (both_case if kind == "both" else rawput_case)(exe, it, run, stats)
             if sg:
                 sigs.add(sg)
             n += 1
@@ -590,7 +690,8 @@ def main(tier):
                 "up to 64 KiB; max block size 16..1024 on either side, session MTU 64..1400, "
                 "single-body and per-block delivery, CON and NON, two concurrent transfers; "
                 "loss-free FETCH exchanges whose request and response bodies are both "
-                "block-wise; loss-free transfers of 20+ blocks on every path MTU 64..330 (thorough ..1200); "
+                "block-wise; loss-free Block1 uploads by a sender that is not libcoap (Size1 on the "
+                "first block, on all, or never); loss-free transfers of 20+ blocks on every path MTU 64..330 (thorough ..1200); "
                 "fault plans: none / every {deliver,drop,duplicate} assignment to the first N "
                 "datagrams of a 3-block transfer / random loss+duplication+delay; "
                 "distinct_nontrivial = distinct (kind, length class, modes, sizes, fault) tuples")
@@ -628,6 +729,9 @@ def main(tier):
     nboth = 96 if tier == "quick" else 3000
     for i in range(0, nboth, 8):
         jobs.append(("both", list(range(i, min(nboth, i + 8))), exe))
+    nraw = 160 if tier == "quick" else 4000
+    for i in range(0, nraw, 8):
+        jobs.append(("rawput", list(range(i, min(nraw, i + 8))), exe))
     nab = 24 if tier == "quick" else 600
     for i in range(0, nab, chunk):
         jobs.append(("abandon", list(range(i, min(nab, i + chunk))), exe))
@@ -646,6 +750,7 @@ def main(tier):
     run.require("complete_transfers", stats.get("complete", 0), 300)
     run.require("incomplete_transfers_seen", stats.get("incomplete", 0), 10)
     run.require("large_calls", stats.get("large_calls", 0), 300)
+    run.require("raw_uploads", stats.get("raw_uploads", 0), 100)
     return run.finish()
 
 
